@@ -281,8 +281,19 @@ func runPlan(c *pbt.Case, p Plan) {
 	primaries, losses, handoffs := 0, 0, 0
 	tx := uint32(0)
 
+	// Durations are judged only while this process is running normally: if the whole
+	// process (or the machine under it) was stopped for a while - a gap between two
+	// samples, which otherwise follow each other within milliseconds - the nodes had no
+	// chance to act in that time, and get a moment to catch up.
+	var lastSample, graceUntil time.Time
 	sample := func(when string) {
 		now := time.Now()
+		if !lastSample.IsZero() && now.Sub(lastSample) > time.Second {
+			graceUntil = now.Add(2 * time.Second)
+			c.Label("process-was-stalled")
+		}
+		lastSample = now
+		timed := now.After(graceUntil)
 		e := derive(cl.Svc.Calls())
 		holder, _ := cl.Svc.Holder()
 		for i, n := range nodes {
@@ -293,17 +304,17 @@ func runPlan(c *pbt.Case, p Plan) {
 			isPrimary := n.Store.IsPrimary()
 			// --- primary only while entitled by the service's own record ---
 			if isPrimary {
-				if e.lease[n.Name] == "" && now.Sub(e.lostAt[n.Name]) > 300*time.Millisecond {
+				if timed && e.lease[n.Name] == "" && now.Sub(e.lostAt[n.Name]) > 300*time.Millisecond {
 					c.Failf("C08/primary-without-lease", "%s: node %s reports itself primary; by the lease service's log it has held no lease since %s ago", when, n.Name, now.Sub(e.lostAt[n.Name]).Round(time.Millisecond))
 				}
-				if t0, failing := e.renewErr[n.Name]; failing && now.Sub(e.renewOK[n.Name]) > ttl+2500*time.Millisecond {
+				if t0, failing := e.renewErr[n.Name]; timed && failing && now.Sub(e.renewOK[n.Name]) > ttl+2500*time.Millisecond {
 					c.Failf("C08/primary-beyond-ttl", "%s: node %s is still primary %s after its last successful renewal (renewals failing since %s, TTL %s)", when, n.Name, now.Sub(e.renewOK[n.Name]).Round(time.Millisecond), now.Sub(t0).Round(time.Millisecond), ttl)
 				}
 				pctxs[n] = append(pctxs[n], pctx{ctx: n.Store.PrimaryCtx(context.Background()), lease: e.lease[n.Name]})
 			}
 			// --- primary-scoped contexts end with the lease they were made under ---
 			for _, pc := range pctxs[n] {
-				if pc.lease != "" && e.lease[n.Name] != pc.lease && now.Sub(e.lostAt[n.Name]) > 300*time.Millisecond && pc.ctx.Err() == nil {
+				if timed && pc.lease != "" && e.lease[n.Name] != pc.lease && now.Sub(e.lostAt[n.Name]) > 300*time.Millisecond && pc.ctx.Err() == nil {
 					c.Failf("C08/primary-context-outlives-lease", "%s: a primary-scoped context of node %s made under lease %s is still live; the node holds %q now", when, n.Name, pc.lease, e.lease[n.Name])
 				}
 			}
